@@ -128,8 +128,9 @@ static bool finite3(const Vec3& v) { return std::isfinite(v[0]) && std::isfinite
 
 // ------------------------------------------------------------------------------------------------ modes
 static std::string MODE;
-static bool wantC12() { return MODE == "c12"; }
-static bool wantC13() { return MODE == "c13"; }
+static bool gReplayAll = false;   // replay: evaluate the predicates of all four properties
+static bool wantC12() { return MODE == "c12" || gReplayAll; }
+static bool wantC13() { return MODE == "c13" || gReplayAll; }
 
 // Evaluates one force element of a rig: contributions + PE.
 struct Contribution {
@@ -165,19 +166,29 @@ static double powerOf(const Rig& g, const State& s, const Contribution& c) {
     for (int i = 0; i < c.mob.size(); ++i) P += c.mob[i] * s.getU()[i];
     return P;
 }
-// d(PE)/dt along the motion by central difference: q -> q +- h*qdot (u unchanged)
+// d(PE)/dt along the motion by central differences: q -> q +- h*qdot (u unchanged), evaluated with steps h and h/2 and
+// Richardson-extrapolated (error O(h^4)); `err` returns |D(h)-D(h/2)|, the size of the O(h^2) truncation term that was
+// removed -- it is added to the tolerance of the predicates (the energies of Hertz-type contacts ~x^(5/2) and of the
+// exponential spring have large third derivatives at small penetration / high speed: a fixed 1e-6*scale bound alone gave a
+// false alarm in the thorough tier, see notes/C12.md)
+static double richardson(const std::function<double(double)>& peAt, double h, double& err) {
+    double d1 = (peAt(h) - peAt(-h)) / (2 * h);
+    double d2 = (peAt(h / 2) - peAt(-h / 2)) / h;
+    err = std::abs(d1 - d2);
+    return (4 * d2 - d1) / 3;
+}
+static double gFDErr = 0;      // truncation estimate of the last peRateFD call
 static double peRateFD(const Rig& g, const Force& f, const State& s, double h = 1e-6) {
     g.sys.realize(s, Stage::Velocity);
     const Vector qdot = s.getQDot();
-    double pe[2];
-    for (int k = 0; k < 2; ++k) {
+    auto peAt = [&](double dt) {
         State t = s;
-        t.updQ() = s.getQ() + (k ? h : -h) * qdot;
+        t.updQ() = s.getQ() + dt * qdot;
         g.sys.realize(t, Stage::Dynamics);      // contact elements need the contact set (Dynamics stage)
         Contribution c = contrib(g, f, t);       // some elements fill their PE cache in calcForce
-        pe[k] = c.pe;
-    }
-    return (pe[1] - pe[0]) / (2 * h);
+        return (double)c.pe;
+    };
+    return richardson(peAt, h, gFDErr);
 }
 // C12 record:  I c12 <elem-record>  ->  O power dPEdt diss ;   P lines on the implementation
 static std::string gOrig;   // the original I line in replay mode
@@ -190,6 +201,7 @@ static double c12Lines(const std::string& key, const Rig& g, const Force& f, con
     if (reportsPE) {
         double rate = peRateFD(g, f, s, h);
         diss = P + rate;                 // power = -dPE/dt + diss
+        tol += gFDErr;                   // measured truncation term of the finite difference
         if (gDissOnly) return diss;
         vh::P("dissipation_nonpositive", key + ".diss_le_0", diss, tol);
         if (!hasDamping) vh::P("no_damping_conservative", key + ".diss_eq_0", std::abs(diss), tol);
@@ -203,7 +215,7 @@ static double c12Lines(const std::string& key, const Rig& g, const Force& f, con
 // (jet derivative of the coded PE), tolerance = finite-difference accuracy relative to the power scale
 static void dissRecord(const std::string& fn, const std::string& argTokens, double diss, double scale) {
     if (gDissOnly) std::puts(gOrig.c_str()); else std::printf("I %s%s\n", fn.c_str(), argTokens.c_str());
-    std::printf("T 1e-5 %.3g\n", 2e-6 * std::max(1.0, scale));
+    std::printf("T 1e-5 %.3g\n", 2e-6 * std::max(1.0, scale) + gFDErr);
     vh::O(fn).d(diss).emit();
 }
 
@@ -212,6 +224,7 @@ static void dissRecord(const std::string& fn, const std::string& argTokens, doub
 // central difference of MultibodySystem::calcPotentialEnergy along the motion; `reportedLoss` = sum of the documented
 // per-contact power dissipation
 static void c12SystemLines(const std::string& key, const Rig& g, const State& s, bool hasDamping, double reportedLoss, double h = 1e-6) {
+    if (const char* e = std::getenv("FL_H")) h = std::atof(e);
     g.sys.realize(s, Stage::Dynamics);
     const Vector_<SpatialVec>& F = g.sys.getRigidBodyForces(s, Stage::Dynamics);
     double P = 0, scale = 0;
@@ -220,11 +233,11 @@ static void c12SystemLines(const std::string& key, const Rig& g, const State& s,
         P += dot(F[b][0], V[0]) + dot(F[b][1], V[1]);
         scale += F[b][1].norm() * (V[1].norm() + 1) + F[b][0].norm() * V[0].norm();
     }
-    const Vector qdot = s.getQDot(); double pe[2];
-    for (int k = 0; k < 2; ++k) { State t = s; t.updQ() = s.getQ() + (k ? h : -h) * qdot; g.sys.realize(t, Stage::Dynamics); pe[k] = g.sys.calcPotentialEnergy(t); }
-    double diss = P + (pe[1] - pe[0]) / (2 * h);
+    const Vector qdot = s.getQDot(); double fdErr = 0;
+    auto peAt = [&](double dt) { State t = s; t.updQ() = s.getQ() + dt * qdot; g.sys.realize(t, Stage::Dynamics); return (double)g.sys.calcPotentialEnergy(t); };
+    double diss = P + richardson(peAt, h, fdErr);
     scale += std::abs(g.sys.calcPotentialEnergy(s));
-    double tol = 1e-6 * std::max(1.0, scale);
+    double tol = 1e-6 * std::max(1.0, scale) + fdErr;
     vh::P("dissipation_nonpositive", key + ".diss_le_0", diss, tol);
     if (!hasDamping) vh::P("no_damping_conservative", key + ".diss_eq_0", std::abs(diss), tol);
     if (reportedLoss >= 0) vh::P("dissipation_rate_documented", key + ".power_dissipation", std::abs(diss + reportedLoss), tol);
@@ -589,7 +602,7 @@ static void elemBushing(Src& c) {
         c12Lines("LinearBushing", *g, bush, g->s, k, true, damp, false, sc + std::abs(k.pe));
         // documented dissipation rate sum c_i qdot_i^2 equals -(power + dPE/dt)
         double P = powerOf(*g, g->s, k), rate = peRateFD(*g, bush, g->s);
-        vh::P("dissipation_rate_documented", "LinearBushing.power_dissipation", std::abs(-(P + rate) - bush.getPowerDissipation(g->s)), 1e-6 * std::max(1.0, sc));
+        vh::P("dissipation_rate_documented", "LinearBushing.power_dissipation", std::abs(-(P + rate) - bush.getPowerDissipation(g->s)), 1e-6 * std::max(1.0, sc) + gFDErr);
     }
 }
 
@@ -1621,7 +1634,7 @@ int main(int argc, char** argv) {
                 if (toks.size() < 2) continue;
                 Src c; c.replay = true; c.rng = &rng; c.toks.assign(toks.begin() + 2, toks.end());
                 gOrig = line;
-                MODE = "c13";    // replay evaluates the third-law predicates too
+                MODE = "c13"; gReplayAll = true;    // replay evaluates the predicates of all four properties
                 try { runOne(toks[1], c); } catch (const std::exception& e) { std::puts(line.c_str()); std::printf("O %s EXC:%s\n", toks[1].c_str(), "std::exception"); }
                 MODE = "replay";
             }
